@@ -368,3 +368,193 @@ Proof.
     cbn [ysum lin_val r_lin lsum fst snd]. lra.
   - vm_compute. reflexivity.
 Qed.
+
+(* ------------------------------------------------------------------ entry duals (after bd99691) *)
+(** [_recover_dual_values] now also exposes, per LMI, U[i][j] = - y[first + i*n + j]: minus the multiplier of the
+    row coupling entry (i,j).  Facts proved here, for EVERY LMI, symmetric as written or not:
+    (1) the reported dual matrix -Sbar_k pairs with every symmetric Z as  sum_ij U[i][j] * Z[i][j]
+        (i.e. reported dual = sym(entries_dual)), by MOSEK's dual equation Sbar_k = - sum_i y_i Abar_ik;
+    (2) the certificate identity holds with the entry duals combined with the entries' expressions, with no
+        symmetry requirement on the matrix of expressions;
+    (3) in cvxpy's convention (rows M[i][j] - e_ij == 0 with multiplier u_ij, Lagrangian constant in symmetric M) the
+        reported dual pairs with symmetric Z as  sum_ij u_ij * Z[i][j]  as well: one convention. *)
+Section EntryDuals.
+  Variable y : nat -> R.
+
+  (** sum over the entries of one LMI, rows numbered from nb:  (- y row) * f i j e *)
+  Fixpoint esum (f : nat -> nat -> edict -> R) (nb : nat) (es : list (nat * nat * edict)) : R :=
+    match es with
+    | [] => 0
+    | ije :: rest => (- y nb) * f (fst (fst ije)) (snd (fst ije)) (snd ije) + esum f (S nb) rest
+    end.
+
+  (** ... of the LMI that owns bar variable j *)
+  Fixpoint entries_pair (f : nat -> nat -> edict -> R) (j kb nb : nat) (l : sent) : R :=
+    match l with
+    | [] => 0
+    | SC _ _ :: rest => entries_pair f j kb (S nb) rest
+    | LMI m :: rest =>
+        (if Nat.eqb j kb then esum f nb (entries m) else 0)
+        + entries_pair f j (S kb) (nb + length (entries m))%nat rest
+    end.
+
+  Lemma ysum_entry_rows j kb Z : symG Z -> (1 <= j)%nat -> forall es nb,
+    ysum y (bar_val j Z) (map (fun ije => lmi_row kb (fst (fst ije)) (snd (fst ije)) (snd ije)) es) nb
+    = if Nat.eqb j kb then esum (fun i jj _ => Z i jj) nb es else 0.
+  Proof.
+    intros Hs Hj. induction es as [|[[i jj] e] es IH]; intros nb; cbn [map ysum esum fst snd].
+    - destruct (Nat.eqb j kb); reflexivity.
+    - rewrite IH. unfold bar_val, lmi_row. cbn [r_bar lsum fst snd].
+      destruct (Nat.eqb_spec j 0) as [->|_]; [lia|].
+      destruct (Nat.eqb j kb).
+      + unfold wmat_read. cbn [lsum fst snd]. rewrite (coupling_read Z i jj Hs), Q2R_one. lra.
+      + lra.
+  Qed.
+
+  (** (1) the pairing of the reported dual of the LMI owning bar variable j with a symmetric Z *)
+  Theorem exposed_is_sym_entries Z j : symG Z -> (1 <= j)%nat -> forall l kb nb, (1 <= kb)%nat ->
+    ysum y (bar_val j Z) (rows_of kb l) nb = entries_pair (fun i jj _ => Z i jj) j kb nb l.
+  Proof.
+    intros Hs Hj. induction l as [|[e s|m] l IH]; intros kb nb Hkb; cbn [rows_of ysum entries_pair]; [reflexivity| |].
+    - rewrite (IH kb (S nb) Hkb). unfold bar_val at 1, sc_row. cbn [r_bar lsum fst snd].
+      destruct (Nat.eqb_spec j 0) as [->|_]; [lia|]. lra.
+    - rewrite ysum_app, map_length, (ysum_entry_rows j kb Z Hs Hj), (IH (S kb)) by lia. reflexivity.
+  Qed.
+
+  Variable x : nat -> R.
+  Variable G : nat -> nat -> R.
+  Hypothesis Gsym : symG G.
+
+  Definition zeroM : nat -> nat -> R := fun _ _ => 0.
+  Definition XG : nat -> nat -> nat -> R := fun j => if Nat.eqb j 0 then G else zeroM.
+
+  Lemma XG_sym j : symG (XG j).
+  Proof. unfold XG. destruct (Nat.eqb j 0); [exact Gsym|intros a b; reflexivity]. Qed.
+
+  Lemma wmat_read_zero wm : wmat_read zeroM wm = 0.
+  Proof.
+    unfold wmat_read. induction wm as [|[q tr] wm IH]; cbn [lsum fst snd]; [reflexivity|]. rewrite IH.
+    assert (H : tri_read zeroM tr = 0).
+    { unfold tri_read. induction tr as [|t tr IHt]; cbn [lsum]; [reflexivity|]. rewrite IHt.
+      unfold tri_val, zeroM. destruct (Nat.eqb (fst (fst t)) (snd (fst t))); lra. }
+    rewrite H. lra.
+  Qed.
+
+  Lemma bar_val_zero j r : bar_val j zeroM r = 0.
+  Proof.
+    unfold bar_val. induction (r_bar r) as [|[a wm] rb IH]; cbn [lsum fst snd]; [reflexivity|].
+    rewrite IH. destruct (Nat.eqb j a); [rewrite wmat_read_zero|]; lra.
+  Qed.
+
+  Lemma ysum_zero f rows : (forall r, f r = 0) -> forall i0, ysum y f rows i0 = 0.
+  Proof. intros H. induction rows as [|r rows IH]; intros i0; cbn [ysum]; [reflexivity|]. rewrite IH, H. lra. Qed.
+
+  (** sum over ALL LMI entries of  U_kij * e_kij(G,F),  U_kij = - y[row of the entry] *)
+  Fixpoint cert_entries (nb : nat) (l : sent) : R :=
+    match l with
+    | [] => 0
+    | SC _ _ :: rest => cert_entries (S nb) rest
+    | LMI m :: rest => esum (fun _ _ e => evalGF G x e) nb (entries m)
+                       + cert_entries (nb + length (entries m))%nat rest
+    end.
+
+  Lemma ysum_entry_rows_val kb : (1 <= kb)%nat -> forall es nb,
+    (forall ije, In ije es -> eND (snd ije)) ->
+    ysum y (row_val x XG) (map (fun ije => lmi_row kb (fst (fst ije)) (snd (fst ije)) (snd ije)) es) nb
+    = - esum (fun _ _ e => evalGF G x e) nb es
+      + ysum y (fun r => Q2R (bound_value (r_bnd r)))
+          (map (fun ije => lmi_row kb (fst (fst ije)) (snd (fst ije)) (snd ije)) es) nb.
+  Proof.
+    intros Hkb. induction es as [|[[i jj] e] es IH]; intros nb Hnd; cbn [map ysum esum fst snd]; [lra|].
+    rewrite IH by (intros ije H; apply Hnd; right; exact H).
+    rewrite (lmi_row_val x XG XG_sym kb i jj e (Hnd (i, jj, e) (or_introl eq_refl))).
+    unfold lmi_row, bound_value. cbn [r_bnd fst snd]. rewrite Q2R_opp.
+    unfold XG. destruct (Nat.eqb_spec kb 0) as [->|_]; [lia|]. cbn [Nat.eqb]. unfold zeroM. lra.
+  Qed.
+
+  Lemma ysum_rows_of_entries : forall l kb nb, (1 <= kb)%nat -> wfR l ->
+    ysum y (row_val x XG) (rows_of kb l) nb
+    = cert_scalars y x XG nb l - cert_entries nb l + dual_obj y (rows_of kb l) nb.
+  Proof.
+    unfold dual_obj.
+    induction l as [|[e s|m] l IH]; intros kb nb Hkb Hwf; cbn [rows_of ysum cert_scalars cert_entries]; [lra| |].
+    - inversion Hwf as [|? ? He Hwf']; subst. cbn [wfR_item] in He.
+      rewrite (IH kb (S nb) Hkb Hwf'), (sc_row_val x XG XG_sym e s He).
+      unfold sc_row. cbn [r_bnd]. rewrite sc_bound_value. lra.
+    - inversion Hwf as [|? ? Hm Hwf']; subst. cbn [wfR_item] in Hm.
+      rewrite !ysum_app, map_length, (IH (S kb) _ ltac:(lia) Hwf'), (ysum_entry_rows_val kb Hkb _ nb Hm). lra.
+  Qed.
+
+  (** (2) the certificate identity with the entry duals, for LMIs symmetric as written or not *)
+  Theorem duals_identity_entries l pc ec obj :
+    wfR l -> dual_eq (sdp_of l pc ec obj) y ->
+    x obj - dual_obj y (rows_of 1 l) 0
+    = cert_scalars y x XG 0 l - exposed y l 0 G - cert_entries 0 l.
+  Proof.
+    intros Hwf Hd.
+    assert (Hr : bars_in_range (sdp_of l pc ec obj)).
+    { unfold bars_in_range, sdp_of. cbn [d_rows d_bars length]. rewrite map_length.
+      exact (rows_of_bars_in_range l 1 (le_n 1)). }
+    pose proof (lagrangian_identity (sdp_of l pc ec obj) y Hr Hd x XG) as H.
+    unfold obj_val, c_val, cbar_val, Sbar_pair, cbar_val in H.
+    unfold sdp_of in H. cbn [d_c d_barc d_bars d_rows lsum fst snd length] in H.
+    rewrite map_length, sumn_zero, Q2R_one in H.
+    rewrite (ysum_rows_of_entries l 1 0 (le_n 1) Hwf) in H.
+    rewrite sumn_shift in H. unfold exposed.
+    rewrite (sumn_ext _ (fun k => 0 - ysum y (bar_val (S k) (XG (S k))) (rows_of 1 l) 0) (fun _ => 0)) in H
+      by (intros k _; unfold XG; cbn [Nat.eqb]; rewrite (ysum_zero _ _ (bar_val_zero (S k))); lra).
+    rewrite sumn_zero in H. unfold XG at 2 in H. cbn [Nat.eqb] in H. lra.
+  Qed.
+End EntryDuals.
+
+Lemma exposed_entries (y : nat -> R) (Z : nat -> nat -> R) (j : nat) : symG Z -> (1 <= j)%nat ->
+  forall l, exposed y l j Z = entries_pair y (fun a b _ => Z a b) j 1 0 l.
+Proof. intros Hs Hj l. exact (exposed_is_sym_entries y Z j Hs Hj l 1 0 (le_n 1)). Qed.
+
+(** (3) cvxpy's convention for one n x n LMI: rows  M[i][j] - e_ij == 0  with multipliers u, the matrix variable's
+    dual S; the part of the Lagrangian that depends on M is  <S,M> - sum_ij u_ij (M_ij - E_ij).  Constant in
+    symmetric M  ==>  <S,Z> = sum_ij u_ij Z_ij  for every symmetric Z: reported dual = sym(entries_dual), as in (1). *)
+Definition msum (n : nat) (f : nat -> nat -> R) : R := sumn n (fun i => sumn n (fun j => f i j)).
+
+Lemma msum_ext n f g : (forall i j, f i j = g i j) -> msum n f = msum n g.
+Proof. intros H. unfold msum. apply sumn_ext. intros i _. apply sumn_ext. intros j _. apply H. Qed.
+
+Lemma msum_minus n f g : msum n (fun i j => f i j - g i j) = msum n f - msum n g.
+Proof.
+  unfold msum.
+  rewrite (sumn_ext n (fun i => sumn n (fun j => f i j - g i j))
+             (fun i => sumn n (fun j => f i j) + -1 * sumn n (fun j => g i j))).
+  - rewrite sumn_plus, sumn_scal. lra.
+  - intros i _. rewrite <- sumn_scal, <- sumn_plus. apply sumn_ext. intros j _. lra.
+Qed.
+
+Lemma msum_zero n : msum n (fun _ _ => 0) = 0.
+Proof. unfold msum. rewrite (sumn_ext n _ (fun _ => 0)) by (intros; apply sumn_zero). apply sumn_zero. Qed.
+
+Definition cvx_lag (n : nat) (S u E M : nat -> nat -> R) : R :=
+  msum n (fun i j => S i j * M i j) - msum n (fun i j => u i j * (M i j - E i j)).
+
+Theorem cvxpy_entry_convention n S u E :
+  (forall M, symG M -> cvx_lag n S u E M = cvx_lag n S u E (fun _ _ => 0)) ->
+  forall Z, symG Z -> msum n (fun i j => S i j * Z i j) = msum n (fun i j => u i j * Z i j).
+Proof.
+  intros H Z HZ. specialize (H Z HZ). unfold cvx_lag in H.
+  rewrite (msum_ext n (fun i j => u i j * (Z i j - E i j)) (fun i j => u i j * Z i j - u i j * E i j)) in H
+    by (intros; lra).
+  rewrite (msum_ext n (fun i j => u i j * (0 - E i j)) (fun i j => 0 - u i j * E i j)) in H by (intros; lra).
+  rewrite (msum_ext n (fun i j => S i j * 0) (fun _ _ => 0)) in H by (intros; lra).
+  rewrite !msum_minus, !msum_zero in H. lra.
+Qed.
+
+(** both back-ends: if they report the same dual matrix for the LMI owning bar variable j (same functional on
+    symmetric matrices), their entry duals have the same symmetric part *)
+Theorem entry_duals_agree (y : nat -> R) l j n S u E :
+  (1 <= j)%nat ->
+  (forall M, symG M -> cvx_lag n S u E M = cvx_lag n S u E (fun _ _ => 0)) ->
+  (forall Z, symG Z -> exposed y l j Z = msum n (fun a b => S a b * Z a b)) ->
+  forall Z, symG Z -> entries_pair y (fun a b _ => Z a b) j 1 0 l = msum n (fun a b => u a b * Z a b).
+Proof.
+  intros Hj Hc Hsame Z HZ.
+  rewrite <- (exposed_is_sym_entries y Z j HZ Hj l 1 0 (le_n 1)).
+  fold (exposed y l j Z). rewrite (Hsame Z HZ). exact (cvxpy_entry_convention n S u E Hc Z HZ).
+Qed.
